@@ -180,6 +180,7 @@ HAND = {
     "Shared": (False, None), "Left": (False, None), "Right": (False, None), "Top": (False, None), "SharedTwin": (False, None),
     "SharedAlias": (False, "vcommon::hand::Shared"), "NamedPrim": (False, None), "HandBits": (False, None), "HandBitsMsb": (False, None),
     "LocalA": (False, None), "LocalB": (False, None),
+    "FaultyLeaf": (False, None), "FaultyGood": (False, None), "FaultyParent": (False, None),
 }
 
 
@@ -274,6 +275,9 @@ def core_types():
         out.append(d)
     # PhantomData first, then several real members
     out += [T("tuple", [T("phantom", [U8]), U8, U16, STRING]), T("tuple", [U8, T("phantom", [U8]), U16, U32, BOOL]), T("tuple", [T("phantom", [U8]), T("phantom", [U16]), U8, U16, U32])]
+    # a user type that is merely *named* PhantomData is an ordinary member
+    up = lambda e: T("def", [e], {"path": "vcommon::hand::units::PhantomData", "enc": True, "alias_of": None})
+    out += [up(U8), T("tuple", [up(U8), U16]), T("tuple", [T("phantom", [U8]), up(U16), U8]), T("vec", [up(STRING)]), T("option", [up(U32)]), T("array", [up(BOOL)], 2)]
     return out
 
 
